@@ -375,6 +375,11 @@ def c06(ctx, res):
                 # images whose last word is xFFFE (the loader's HALT goes to xFFFF): the largest that fit
                 ("ends_at_fffe_from_default_origin", "and r0 r0 #0\nadd r0 r0 #2\nputn\nhalt\n.blkw xCFFB\n"),
                 ("one_word_at_fffe", ".orig xFFFE\n.fill x1\n"), ("empty_at_ffff", ".orig xFFFF\n")]
+    # a table that lies across xFE00 (xFDFC..xFE07, where other machines keep device registers), read word by word
+    directed.append(("reads_table_across_fe00", ".orig xFDF0\nlea r1 tab\nlp ldr r0 r1 #0\nbrz done\nout\nadd r1 r1 #1\nbrnzp lp\ndone halt\n.blkw #5\ntab "
+                     + "\n".join(".fill x%02X" % c for c in range(0x61, 0x6D)) + "\n.fill #0\n"))
+    directed.append(("reads_table_below_ffff", ".orig x3000\nld r1 p\nlp ldr r0 r1 #0\nbrz done\nout\nadd r1 r1 #1\nbrnzp lp\ndone halt\np .fill xFFF0\n.blkw xCFE8\n"
+                     + "\n".join(".fill x%02X" % c for c in range(0x41, 0x4F)) + "\n.fill #0\n"))
     # labels that other tools treat as the entry point, below the first statement: execution starts at the origin
     entry_names = ["main", "MAIN", "Main", "start", "_start", "START", "entry", "begin", "_main", "reset"]
     for nm in entry_names:
@@ -389,7 +394,11 @@ def c06(ctx, res):
         # label is defined, the image ends below x10000): these compile, to 2(n+1) bytes
         n_words = {"crlf": 6, "no_final_newline": 6, "across_fe00_string": 38, "across_fe00_to_ffff": 639, "across_fe00_big_blkw": 4 + 0xCE00,
                    "ends_at_fdff": 4, "ends_at_fffe_from_default_origin": 0xCFFF, "one_word_at_fffe": 1, "empty_at_ffff": 0}.get(tag)
-        if tag.startswith("entry_name:"):
+        if tag == "reads_table_across_fe00":
+            n_words = 25
+        elif tag == "reads_table_below_ffff":
+            n_words = 8 + 0xCFE8 + 15
+        elif tag.startswith("entry_name:"):
             n_words = 5
         elif tag.startswith("entry_name_below_data:"):
             n_words = 10
@@ -404,12 +413,12 @@ def c06(ctx, res):
         ra = lace(ctx, ["run", name, "--minimal"], cwd=d)
         ro = lace(ctx, ["run", obj, "--minimal"], cwd=d)
         res.cls("directed_round_trip:" + tag.split(":")[0])
-        if tag.startswith("entry_name"):
-            want_out = b"2" if tag.startswith("entry_name:") else b"AB"
+        if tag.startswith("entry_name") or tag.startswith("reads_table"):
+            want_out = b"2" if tag.startswith("entry_name:") else b"AB" if tag.startswith("entry_name") else b"abcdefghijkl" if "across" in tag else b"ABCDEFGHIJKLMN"
             for which, r in (("source", ra), ("object file", ro)):
                 if r.rc != 0 or program_output(r.out)[0].strip() != want_out:
-                    res.violate("C06/object-file-does-not-run-like-the-reference", "running the %s of a program whose label %r stands below its first statement prints %r (exit %s); started at the origin it prints %r"
-                                % (which, tag.split(":")[1], program_output(r.out)[0].strip()[:40], r.rc, want_out), {"kind": tag, "source": srctext, "run": r.brief()})
+                    res.violate("C06/object-file-does-not-run-like-the-reference", "running the %s of the directed program %r prints %r (exit %s); the reference machine, loading every word of the image and starting at the origin, prints %r"
+                                % (which, tag, program_output(r.out)[0].strip()[:40], r.rc, want_out), {"kind": tag, "source": srctext[:600], "run": r.brief()})
         if ra.rc != ro.rc or ra.out.replace(name.encode(), b"<file>") != ro.out.replace(obj.encode(), b"<file>"):
             res.violate("C06/round-trip-behaviour", "`lace compile` accepted the source, but running the object file differs from running the source (exit %s vs %s)"
                         % (ro.rc, ra.rc), {"kind": tag, "source": srctext[:300], "compile": c.brief(), "run_source": ra.brief(), "run_object": ro.brief()})
@@ -570,7 +579,7 @@ def c06(ctx, res):
     c06_after_failed_compile(ctx, res)
     res.distinct += len(set(files))
     res.require(["round_trip_after_a_failed_compile", "name_with_several_dots", "round_trip", "dest:longer_file_existed", "dest:absent", "dest:odd_sized_file_existed", "dest:empty_file_existed", "ext:lc3", "ext:obj", "loader:empty", "loader:odd", "loader:fits", "loader:too_long",
-                 "edge:FFFF", "edge:10000", "edge:FFFE", "delivery:fifo:odd", "delivery:fifo:even", "loader:runs_into_implicit_halt", "object_with_long_zero_run", "directed_round_trip:across_fe00_string", "directed_round_trip:crlf", "directed_round_trip:entry_name", "directed_round_trip:entry_name_below_data"], "L2")
+                 "edge:FFFF", "edge:10000", "edge:FFFE", "delivery:fifo:odd", "delivery:fifo:even", "loader:runs_into_implicit_halt", "object_with_long_zero_run", "directed_round_trip:across_fe00_string", "directed_round_trip:crlf", "directed_round_trip:entry_name", "directed_round_trip:entry_name_below_data", "directed_round_trip:reads_table_across_fe00"], "L2")
     return res
 
 
@@ -915,9 +924,18 @@ def watch_history(ctx, res, cp, prop, h, length=5, stack=False, ext_sources=Fals
         # sources using the extension, watched WITHOUT the flag: rejected naming the feature, every time
         hist[0] = "push r0\npop r1\nhalt\n"
         hist[4 % length] = "call f\nhalt\nf rets\n"
+    # another source in the same folder, there before `watch` starts: saving *it* says nothing about w.asm
+    sibling = os.path.join(d, "other.asm")
+    _write(sibling, "halt\n")
+    sibling_steps = set()
+    if length >= 7 and not symlinked and not stack and not ext_sources:
+        # (the step shows the text of the version before it; what is written goes to the sibling)
+        sibling_steps = {1, 5}
     p = subprocess.Popen([exe, "watch", "w.asm"] + fl, cwd=d, stdin=subprocess.DEVNULL, stdout=log,
                          stderr=subprocess.STDOUT, env=env)
     ignored_steps = set()
+    idle_after_save = set()
+    sibling_segments = {}
     try:
         time.sleep(1.0)
         segments = []
@@ -974,7 +992,25 @@ def watch_history(ctx, res, cp, prop, h, length=5, stack=False, ext_sources=Fals
                 if "Re-checking" not in out:
                     ignored_steps.add(k)
             if not symlinked and k not in infolder_steps and k not in old_mtime_steps and "Re-checking" not in out:
-                # an ordinary save that drew no re-check: saved twice more (an event may be lost once)
+                # an ordinary save that drew no re-check. Is the watcher still working on it, or has it gone back to
+                # sleep (asleep, its CPU time standing still for twelve half seconds)? The latter, seen after three
+                # different saves of one history, is a watcher that lets saves pass - not an event lost once.
+                still, last = 0, None
+                for _ in range(40):
+                    time.sleep(0.5)
+                    st = _asleep(p.pid)
+                    if st and st[0] == "S" and st == last:
+                        still += 1
+                        if still >= 12:
+                            break
+                    else:
+                        still = 0
+                    last = st
+                out = open(logpath, "rb").read()[before:].decode("utf-8", "replace")
+                if still >= 12 and "Re-checking" not in out:
+                    idle_after_save.add(k)
+            if not symlinked and k not in infolder_steps and k not in old_mtime_steps and "Re-checking" not in out:
+                # ... saved twice more (an event may be lost once)
                 for _again in range(2):
                     _write(path, src)
                     time.sleep(4)
@@ -998,6 +1034,17 @@ def watch_history(ctx, res, cp, prop, h, length=5, stack=False, ext_sources=Fals
                 if "Re-checking" not in out:
                     ignored_steps.add(k)
             segments.append(out)
+            if k in sibling_steps and isinstance(src, str) and p.poll() is None:
+                # the other file of the folder is saved, first with an error in it, then without: whatever `watch`
+                # shows afterwards is still about w.asm
+                shown = ""
+                for text in ("add r0 r0 #99\n", "halt\n"):
+                    mark = os.path.getsize(logpath)
+                    _write(sibling, text)
+                    time.sleep(2.5)
+                    shown += "\x00" + open(logpath, "rb").read()[mark:].decode("utf-8", "replace")
+                sibling_segments[k] = shown
+                res.cls("watch_sibling_file_saved")
         alive = p.poll() is None
         died_rc = p.returncode
     finally:
@@ -1007,6 +1054,10 @@ def watch_history(ctx, res, cp, prop, h, length=5, stack=False, ext_sources=Fals
         except subprocess.TimeoutExpired:
             p.kill()
         log.close()
+    if len(idle_after_save) >= 3:
+        res.violate("%s/watch-lets-saves-pass" % prop,
+                    "versions %s were each saved and drew no re-check while `lace watch` went back to sleep (asleep, CPU time standing still for six seconds); only saving them again brought one"
+                    % sorted(x + 1 for x in idle_after_save), {"history": [h if isinstance(h, str) else repr(h) for h in hist]})
     shown_ok = None   # the verdict of the latest re-check seen so far
     for k, (src, seg) in enumerate(zip(hist, segments)):
         res.evaluations += 1
@@ -1037,6 +1088,15 @@ def watch_history(ctx, res, cp, prop, h, length=5, stack=False, ext_sources=Fals
             res.inconclusive["watch output not understood"] = 1
             continue
         shown_ok = watch_ok
+        for part in sibling_segments.get(k, "").split("\x00"):
+            sib = [s2 for s2 in CLEAR.split(part) if "Re-checking" in s2]
+            if sib and watch_ok == fresh_ok:
+                sib_ok, sib_err = "no errors found" in sib[-1], ("Error" in sib[-1] or "\u00d7" in sib[-1])
+                if sib_ok != sib_err and sib_ok != fresh_ok:
+                    res.violate("%s/watch-shows-another-files-verdict" % prop,
+                                "after another file of the folder was saved, `lace watch w.asm` shows %s; w.asm has not changed and a fresh `lace check` of it reports %s"
+                                % ("success" if sib_ok else "an error", "success" if fresh_ok else "an error"), dict(detail, after_sibling_save=sib[-1][-500:]))
+                    break
         warn_w, warn_f = lastc.count("\u26a0"), (fresh.out + fresh.err).decode("utf-8", "replace").count("\u26a0")
         if watch_ok == fresh_ok and warn_w != warn_f:
             res.violate("%s/watch-warnings-differ-from-fresh-check" % prop,
@@ -1358,6 +1418,8 @@ def c08_surroundings(ctx, res, d):
     kinds = ["stdout_full", "stdout_reader_gone", "streams_closed", "dest_mtime_in_the_future", "tmpdir_missing", "tmpdir_other_fs", "stdout_is_the_destination_dir",
              "source_in_another_directory", "256_failing_statements", "512_failing_statements", "255_failing_statements",
              "destination_locked_elsewhere", "destination_open_elsewhere", "reference_65500_words_away", "reference_minus_65300_words_away"] + \
+            ["source_read_from_a_pipe", "failing_source_read_from_a_pipe", "case_twin_out_of_reach:FAR/far", "case_twin_out_of_reach:Far/far", "case_twin_out_of_reach:far/FAR",
+             "case_twin_within_reach:Data/DATA"] + \
             ["failure_behind_a_label_named:" + n for n in _DIRECTIVE_LIKE_LABELS] + ["valid_program_with_a_label_named:" + n for n in _DIRECTIVE_LIKE_LABELS[:8]]
     for kind in kinds:
         for pre in (True, False):
@@ -1422,6 +1484,35 @@ def c08_surroundings(ctx, res, d):
                 else:
                     _write(os.path.join(base, "p.asm"), "ld r0 far\nlea r1 far\njsr far\n.blkw #65500\nfar halt\n")
                 expect_ok = False
+            elif kind.endswith("source_read_from_a_pipe"):
+                # the source can be read once (a pipe, as in `cat p.asm | lace compile /dev/stdin out.lc3`): what is
+                # assembled is what came through it
+                text = src if kind == "source_read_from_a_pipe" else "ld r1 far\n.blkw #300\nfar .fill x1\n"
+                fifo = os.path.join(base, "src.fifo")
+                if os.path.exists(fifo):
+                    os.remove(fifo)
+                os.mkfifo(fifo)
+
+                def feed(path=fifo, data=text.encode()):
+                    try:
+                        fd = os.open(path, os.O_WRONLY)
+                        os.write(fd, data)
+                        os.close(fd)
+                    except OSError:
+                        pass
+                import threading
+                th = threading.Thread(target=feed, daemon=True)
+                th.start()
+                argv = [exe, "compile", "src.fifo", "p.lc3"]
+                expect_ok = kind == "source_read_from_a_pipe"
+            elif kind.startswith("case_twin_"):
+                # two labels that differ in letter case only are two labels: a reference means the one it spells
+                a, b = kind.split(":", 1)[1].split("/")
+                if "out_of_reach" in kind:
+                    _write(os.path.join(base, "p.asm"), "%s .fill x0\nld r1, %s\n.blkw #300\n%s .fill x1\n" % (a, b, b))
+                    expect_ok = False
+                else:
+                    _write(os.path.join(base, "p.asm"), src.replace("add r0 r0 #1\n", "%s add r0 r0 #1\n" % a, 1).replace("halt\n", "%s halt\n" % b, 1))
             elif kind.startswith("failure_behind_a_label_named:"):
                 # names of directives without their dot, and words other assemblers reserve: labels here, and what
                 # follows them is assembled like everything else - the statement that cannot be emitted included
@@ -1822,7 +1913,31 @@ def c02_cli(ctx, res):
                                     % (k, traps, data[:12], via, r.rc, bad), detail)
                     elif k >= 2:
                         res.cls("l2:input_traps:second_and_later_bytes")
-    res.require(["l2:input_traps:getc:pipe", "l2:input_traps:in:file", "l2:input_traps:mixed:pipe", "l2:input_traps:getc:debugger", "l2:input_traps:second_and_later_bytes", "l2:input_traps:input_ends_early"], "L2")
+    # the same traps given to the debugger's `eval`, in both output modes: each is executed once - one byte of input
+    # taken, one character written - whatever the debugger prints around it
+    _write(os.path.join(d, "nop.asm"), "halt\n")
+    script = "eval getc;eval add r1 r0 #0;eval in;eval add r2 r0 #0;eval out;eval getc;eval add r3 r0 #0;registers;exit"
+    for mode in ("minimal", "decorated"):
+        for data in (b"@#%", b"^&*", b"[]{}~"):      # (characters that occur nowhere in lace's own status lines)
+            r = lace(ctx, ["debug", "nop.asm"] + (["--minimal"] if mode == "minimal" else []) + ["--command", script], stdin=data, cwd=d, timeout=30,
+                     env={"NO_COLOR": "1"})
+            res.evaluations += 1
+            res.cls("l2:evaluated_traps:" + mode)
+            text = _SGR.sub(b"", r.err).decode("utf-8", "replace")
+            got = {j: v.lower() for j, v in re.findall(r"R([0-7])\s+0?x([0-9a-fA-F]{4})", text)}
+            want = {"1": "%04x" % data[0], "2": "%04x" % data[1], "3": "%04x" % data[2]}
+            bad = {j: (got.get(j), w) for j, w in want.items() if got.get(j) != w}
+            out_chars = _SGR.sub(b"", r.out).count(bytes([data[1]]))
+            detail = dict(r.brief(), script=script, input=repr(data), output_mode=mode)
+            if r.rc is None or r.crashed:
+                res.violate("C02/cli/crash", "`lace debug` crashed or hung (exit %s) evaluating traps" % r.rc, detail)
+            elif bad:
+                res.violate("C02/cli/input-byte", "three input traps given to `eval` (%s output) on input %r: registers (got, expected) %s" % (mode, data, bad), detail)
+            elif out_chars != 2:
+                # IN echoes the character it read, OUT writes it once more: twice on standard output, no more
+                res.violate("C02/cli/output-char", "`eval in` and `eval out` of %r (%s output) wrote it %d times to standard output; once each is 2" % (chr(data[1]), mode, out_chars), detail)
+    res.require(["l2:input_traps:getc:pipe", "l2:input_traps:in:file", "l2:input_traps:mixed:pipe", "l2:input_traps:getc:debugger", "l2:input_traps:second_and_later_bytes", "l2:input_traps:input_ends_early",
+                 "l2:evaluated_traps:minimal", "l2:evaluated_traps:decorated"], "L2")
 
 
 # ------------------------------------------------------------------ C10 (L2: stepping scripts through the real readers)
@@ -1891,6 +2006,43 @@ def c10_cli(ctx, res):
             res.violate("C10/cli/wrong-pause", "stepping a program that reads its input from the stream the commands come from (%r): PC, R0, R1, R2 are %s at the final `registers`; the reference machine has %s"
                         % (stdin.decode(), got, (pc, r0, r1, r2)), detail)
     res.require(["l2:stepping_script_via:arg", "l2:stepping_script_via:stdin", "l2:stepping_script_via:split", "l2:stepping_over_input_traps_fed_on_the_command_stream"], "L2")
+
+
+# ------------------------------------------------------------------ C11 (L2: a declared breakpoint, visited three times, through the real readers)
+
+def c11_cli(ctx, res):
+    """A `.break` inside a loop is reached three times (R0 = 3, 2, 1). Scripts with empty commands in them - blank
+    lines, `;;`, a `;` at the end of a line - are delivered on standard input, by --command and split: an empty
+    command is no command (and no end of input), so every visit pauses and `registers` shows R0 = 3, 2, 1."""
+    d = _dir(ctx, "c11")
+    _write(os.path.join(d, "loop.asm"), "and r0 r0 #0\nadd r0 r0 #3\n.break\nlp add r0 r0 #-1\nbrp lp\nhalt\n")
+    scripts = ["continue\nregisters\n\ncontinue\nregisters\n;;continue;registers;\ncontinue\n",
+               "continue;registers;\ncontinue;registers\n\n\ncontinue\nregisters\n\ncontinue\n",
+               "\ncontinue\nregisters\n ; \ncontinue\nregisters;;;continue;registers\ncontinue",
+               "continue\nregisters\ncontinue\nregisters\ncontinue\nregisters\ncontinue\n"]
+    for si, script in enumerate(scripts):
+        for via in ("stdin", "arg", "split"):
+            args = ["debug", "loop.asm", "--minimal"]
+            stdin = b""
+            if via == "stdin":
+                stdin = script.encode()
+            elif via == "arg":
+                args += ["--command", script]
+            else:
+                head, _, tail = script.partition("registers")
+                args += ["--command", head + "registers"]
+                stdin = tail.encode()
+            r = lace(ctx, args, stdin=stdin, cwd=d, timeout=30)
+            res.evaluations += 1
+            res.cls("l2:declared_breakpoint_in_a_loop_via:" + via)
+            got = re.findall(r"^R0 (x[0-9a-f]{4})", r.err.decode("utf-8", "replace"), re.M)
+            detail = dict(r.brief(), script=script, delivery=via, expected_R0_at_each_pause=["x0003", "x0002", "x0001"])
+            if r.rc is None or r.crashed:
+                res.violate("C11/cli/crash", "`lace debug` crashed or hung (exit %s)" % r.rc, detail)
+            elif got != ["x0003", "x0002", "x0001"]:
+                res.violate("C11/cli/visit-not-paused", "a `.break` in a loop reached with R0 = 3, 2, 1: the `registers` given at each pause (script with empty commands, delivered as %s) show R0 = %s"
+                            % (via, got), detail)
+    res.require(["l2:declared_breakpoint_in_a_loop_via:stdin", "l2:declared_breakpoint_in_a_loop_via:arg", "l2:declared_breakpoint_in_a_loop_via:split"], "L2")
 
 
 # ------------------------------------------------------------------ C15 (L2: eval through both readers)
@@ -2716,7 +2868,24 @@ def c09_cli(ctx, res, limit):
                 res.violate("C09/cli/stdout" if dbg.rc == plain.rc else "C09/cli/exit-status",
                             "a program printing ESC/CSI/BEL: output or exit status differ between `lace run%s` and `lace debug%s` (script: %s)"
                             % (" --minimal" if mode else "", " --minimal" if mode else "", how), {"plain": plain.brief(), "debugged": dbg.brief()})
-    res.require(["l2:debug_vs_run", "l2:debug_vs_run_with_program_input", "l2:program_prints_control_bytes", "l2:script_and_program_input_share_stdin", "l2:program_input_read_under_the_debugger"], "L2")
+    # ... and one that writes an escape sequence character by character (OUT in a loop), paused in the middle of the
+    # sequence while the debugger prints text of its own (with and without an `m` in it)
+    _write(os.path.join(d, "esc_by_char.asm"), "lea r1 s\nlp ldr r0 r1 #0\nbrz done\nout\nadd r1 r1 #1\nbrnzp lp\ndone halt\ns .fill x1b\n.stringz \"[36mcolour\"\n.fill x1b\n.stringz \"[0m.\"\n")
+    for mode in ([], ["--minimal"]):
+        plain = lace(ctx, ["run", "esc_by_char.asm"] + mode, cwd=d, stdin=b"")
+        for script in ("step into 4;echo mark;continue", "step into 4;echo text;step into 5;echo m;continue", "step into 9;registers;assembly;continue", "step into 14;help;echo 36m;continue",
+                       "step into 4;frobnicate;continue", "step into 3;echo mark;step;echo m;continue"):
+            for how in ("arg", "stdin"):
+                args = ["debug", "esc_by_char.asm"] + mode + (["--command", script] if how == "arg" else [])
+                dbg = lace(ctx, args, cwd=d, stdin=b"" if how == "arg" else script.replace(";", "\n").encode() + b"\n")
+                res.evaluations += 1
+                res.cls("l2:escape_sequence_written_across_pauses")
+                if (dbg.rc, dbg.out) != (plain.rc, plain.out):
+                    res.violate("C09/cli/stdout" if dbg.rc == plain.rc else "C09/cli/exit-status",
+                                "a program writing an escape sequence one character at a time: output or exit status differ between `lace run%s` and `lace debug%s` with the script %r (%s)"
+                                % (" --minimal" if mode else "", " --minimal" if mode else "", script, how), {"plain": plain.brief(), "debugged": dbg.brief()})
+    res.require(["l2:debug_vs_run", "l2:debug_vs_run_with_program_input", "l2:program_prints_control_bytes", "l2:script_and_program_input_share_stdin", "l2:program_input_read_under_the_debugger",
+                 "l2:escape_sequence_written_across_pauses"], "L2")
 
 
 # ------------------------------------------------------------------ C20 (L2: the line editor on a real terminal)
@@ -2724,7 +2893,7 @@ def c09_cli(ctx, res, limit):
 _KEYS = {"<Enter>": b"\r", "<BS>": b"\x7f", "<Del>": b"\x1b[3~", "<Left>": b"\x1b[D", "<Right>": b"\x1b[C", "<Up>": b"\x1b[A", "<Down>": b"\x1b[B"}
 
 
-def _pty_session(ctx, d, cache, keys, streams, cols=None):
+def _pty_session(ctx, d, cache, keys, streams, cols=None, fsize=None, extra=()):
     """Start `lace debug p.asm` on a pseudo-terminal, type `keys`, return (exit status or None, what the
     terminal showed). `streams` says where stdout and stderr go: the terminal or a file."""
     import pty
@@ -2738,8 +2907,18 @@ def _pty_session(ctx, d, cache, keys, streams, cols=None):
     env = dict(common.ENV, XDG_CACHE_HOME=cache, TERM="xterm")
     outf = open(os.path.join(d, "stdout.log"), "wb") if streams in ("stdout_to_file", "both_to_file") else None
     errf = open(os.path.join(d, "stderr.log"), "wb") if streams in ("stderr_to_file", "both_to_file") else None
-    p = subprocess.Popen([common.cli_bin(ctx), "debug", "p.asm"], cwd=d, env=env, stdin=slave, stdout=outf or slave, stderr=errf or slave,
-                         start_new_session=True)
+    pre = None
+    if fsize is not None:
+        import resource
+        import signal as _signal
+
+        def pre():
+            # the history file cannot grow beyond `fsize` bytes; the signal that goes with the limit is ignored, so
+            # the write simply fails (a full disk, a quota)
+            _signal.signal(_signal.SIGXFSZ, _signal.SIG_IGN)
+            resource.setrlimit(resource.RLIMIT_FSIZE, (fsize, fsize))
+    p = subprocess.Popen([common.cli_bin(ctx), "debug", "p.asm"] + list(extra), cwd=d, env=env, stdin=slave, stdout=outf or slave, stderr=errf or slave,
+                         start_new_session=True, preexec_fn=pre)
     os.close(slave)
     shown = bytearray()
 
@@ -2835,6 +3014,34 @@ class _Pty:
         return rc
 
 
+def c20_history_unwritable(ctx, res):
+    """The history file cannot be written (a limit on file size of 0 or 10 bytes): the lines of this session are
+    still the history of this session, and <Up> recalls them. What was submitted is read off the machine: two
+    `step`s leave the PC at x3002."""
+    base = _dir(ctx, "c20_fsize")
+    for fsize, first in ((0, []), (10, ["registers", "<Enter>"]), (5, ["echo a", "<Enter>"])):
+        d = os.path.join(base, "f%d" % fsize)
+        cache = os.path.join(d, "cache")
+        os.makedirs(cache, exist_ok=True)
+        _write(os.path.join(d, "p.asm"), "add r0 r0 #1\nadd r0 r0 #1\nhalt\n")
+        keys = first + ["step", "<Enter>", "<Up>", "<Enter>", "registers", "<Enter>", "exit", "<Enter>"]
+        rc, shown = _pty_session(ctx, d, cache, keys, "all_on_terminal", fsize=fsize, extra=["--minimal"])
+        res.evaluations += 1
+        res.cls("l2:editor_with_unwritable_history_file")
+        text = _SGR.sub(b"", shown).decode("utf-8", "replace")
+        pcs = re.findall(r"PC (x[0-9a-f]{4})", text)
+        detail = {"keys": keys, "history_file_size_limit": fsize, "exit": rc, "terminal_tail": text[-400:]}
+        if rc is None:
+            k = "session on a pseudo-terminal did not end within 60 s (undecided)"
+            res.inconclusive[k] = res.inconclusive.get(k, 0) + 1
+        elif rc == 101 or rc < 0:
+            res.violate("C20/pty/crash", "`lace debug` on a terminal crashed (exit %s)" % rc, detail)
+        elif not pcs or pcs[-1] != "x3002":
+            res.violate("C20/pty/submitted-lines", "with a history file that cannot grow beyond %d bytes, `step` <Enter> <Up> <Enter> leaves the PC at %s; a plain editor submits `step` twice (PC x3002)"
+                        % (fsize, pcs[-1:] or None), detail)
+    res.require(["l2:editor_with_unwritable_history_file"], "L2")
+
+
 def c20_shared_history(ctx, res):
     """Two sessions open at the same time on one history file (two terminals, one user), then a third that
     recalls what they submitted: the history a session starts from is every line submitted before it,
@@ -2899,6 +3106,9 @@ def c20_pty(ctx, res):
         (["sttep", "<Left>", "<Left>", "<Left>", "<Del>", "<Enter>", "echo a\u00e9", "<Left>", "<Left>", "x", "<Enter>", "quit", "<Enter>"], ["step", "echo xa\u00e9", "quit"]),
         (["registers", "<Enter>", "print r1", "<Enter>", "<Up>", "<Up>", "<Enter>", "<Up>", "<Down>", "exit", "<Enter>"], ["registers", "print r1", "registers", "exit"]),
         (["echo \U0001F642\u20ac", "<BS>", "<Left>", "<Right>", "!", "<Enter>", "exit", "<Enter>"], ["echo \U0001F642!", "exit"]),
+        # every capital letter, digit and punctuation mark of the keyboard is a character to insert (no key of its own)
+        (["echo ABCDEFGHIJKLM", "<Enter>", "echo NOPQRSTUVWXYZ", "<Enter>", "print PC", "<BS>", "<BS>", "r0", "<Enter>", "EXIT", "<Enter>"], ["echo ABCDEFGHIJKLM", "echo NOPQRSTUVWXYZ", "print r0", "EXIT"]),
+        (["echo 0123456789 !@#$%^&*()_+-=[]{}|:'<>,.?/~`", "<Enter>", "C", "<BS>", "registers", "<Enter>", "quit", "<Enter>"], ["echo 0123456789 !@#$%^&*()_+-=[]{}|:'<>,.?/~`", "registers", "quit"]),
     ]
     jobs = []
     for streams in ("all_on_terminal", "stderr_to_file", "stdout_to_file", "both_to_file"):
@@ -3056,7 +3266,32 @@ def c01_cli(ctx, res, limit):
             res.violate("C01/cli/default-destination", "after compiling %s without a destination, %s holds %s; the image of that source is %d bytes ending in %r"
                         % ([n for n, _ in fam], os.path.basename(dest), "nothing (no such file)" if data is None else "%d other bytes" % len(data), len(want), tag),
                         {"directory": sorted(os.listdir(d3)), "source": prog(tag)})
-    res.require(["l2:compile", "l2:run_next_to_object_file_of_other_text", "l2:default_destination"], "L2")
+    # images that end at the very last words of memory (and one before): origin word, then every statement word
+    d4 = _dir(ctx, "c01_top")
+    body = ["add r0 r0 #1", "not r1 r0", ".fill xBEEF", "and r2 r2 #0", ".fill x1234"]
+    words = [0x1021, 0x923F, 0xBEEF, 0x54A0, 0x1234]
+    k = 0
+    for n in (1, 2, 3, 5):
+        for end in (0xFFFF, 0xFFFE, 0xFDFF, 0xFE00, 0x7FFF):
+            origin = end - n + 1
+            for spell in ("x%04X", "#%d"):
+                if origin > 0x7FFF and spell == "#%d" and k % 2:
+                    spell = "#%d"
+                name = "t%d.asm" % k
+                k += 1
+                text = ".orig " + (spell % origin) + "\n" + "\n".join(body[:n]) + "\n"
+                _write(os.path.join(d4, name), text)
+                c = lace(ctx, ["compile", name, name[:-4] + ".lc3"], cwd=d4)
+                res.evaluations += 1
+                res.cls("l2:compile_image_ending_at:x%04X" % end)
+                want = b"".join(w.to_bytes(2, "big") for w in [origin] + words[:n])
+                dest = os.path.join(d4, name[:-4] + ".lc3")
+                data = open(dest, "rb").read() if os.path.exists(dest) else None
+                if c.rc != 0 or data != want:
+                    res.violate("C01/cli/object-bytes", "`lace compile` of %d statements at origin x%04X (last word at x%04X) does not write the reference image (exit %s, %s bytes, expected %d)"
+                                % (n, origin, end, c.rc, None if data is None else len(data), len(want)),
+                                {"source": text, "compile": c.brief(), "file_hex": None if data is None else data.hex(), "expected_hex": want.hex()})
+    res.require(["l2:compile", "l2:run_next_to_object_file_of_other_text", "l2:default_destination", "l2:compile_image_ending_at:xFFFF", "l2:compile_image_ending_at:xFFFE"], "L2")
 
 
 # ------------------------------------------------------------------ valgrind samples (thorough)
